@@ -1,5 +1,6 @@
 import Verif.Drv.Runner
 import Verif.Model.Chain
+import Verif.Model.ChainF
 
 namespace Verif.Drv
 open Verif.Chain
@@ -8,6 +9,9 @@ structure ChainSt where
   U : Nat → Blk
   m : Mgr
   nblk : Nat
+  /-- which stored states are complete (`Model/ChainF.lean`); the chain part of the F-model is
+  `m` (erasure lemmas in `Lemmas/ChainF.lean`), so it is carried alongside, not instead -/
+  full : Nat → Bool := fun i => i = 0
 
 def errStr : Option Err → String
   | none => "ok"
@@ -41,17 +45,21 @@ def chainStep (s : ChainSt) (ws : List String) : ChainSt × String :=
     match nats? ids with
     | some ids =>
       let (m', e) := addBlocks s.U s.m ids
-      ({ s with m := m' }, mgrLine (errStr e) m')
+      ({ s with m := m', full := (addBlocksF s.U ⟨s.m, s.full⟩ ids).1.full }, mgrLine (errStr e) m')
     | none => (s, "bad-op")
   | "addv2" :: n :: ids =>
     match nat? n, nats? ids with
     | some n, some ids =>
       let (m', e) := addValidatedV2 s.U s.m ids n
-      ({ s with m := m' }, mgrLine (errStr e) m')
+      ({ s with m := m', full := (addValidatedV2F s.U ⟨s.m, s.full⟩ ids n).1.full }, mgrLine (errStr e) m')
     | _, _ => (s, "bad-op")
   | ["prune", h] =>
     match nat? h with
     | some h => let m' := prune s.m h; ({ s with m := m' }, mgrLine "ok" m')
+    | none => (s, "bad-op")
+  | "full" :: ids =>
+    match nats? ids with
+    | some ids => (s, "full" ++ String.join ((ids.filter fun i => s.full i).map fun i => " " ++ toString i))
     | none => (s, "bad-op")
   | ["minreorg"] => (s, toString (minReorgIndex s.m))
   | ["history"] => (s, joinNats (history s.m))
@@ -73,7 +81,7 @@ def chainStep (s : ChainSt) (ws : List String) : ChainSt × String :=
 
 def chainModel : Model where
   σ := ChainSt
-  init := fun _ => some ⟨fun _ => default, Mgr.init, 0⟩
+  init := fun _ => some { U := fun _ => default, m := Mgr.init, nblk := 0 }
   step := chainStep
 
 def chainModels : List (String × Model) := [("mgr", chainModel)]
